@@ -42,7 +42,7 @@ CONFIG = {
                   'thorough': {'c11.eq': 5000000}},
     'must_sig': ['eq:same_tree', 'eq:different_tree', 'pair:near_miss',
                  'logic:PL', 'logic:LTL', 'logic:CTLS', 'logic:CTL',
-                 'clone:deep', 'routes:7'],
+                 'clone:deep', 'routes:7', 'reinit'],
     'rule': ('cases = ordered pairs (f, g) of formula objects of one logic; '
              'pool per logic: all formulas of depth <=1 over {p,q,true,'
              'false}, a seeded sample of depth-2 formulas, near-miss '
@@ -253,6 +253,45 @@ def judge_routes(logic, t):
         LOG.sig['routes:%d' % min(len(rs), 8)] += 1
 
 
+def judge_reinit(logic, t, t2):
+    """A formula object that was hashed / used as a key and is then given
+    other operands in place (re-initialised) must behave like a freshly built
+    formula with its new tree."""
+    L = lang(logic)
+    try:
+        f = build(L, t)
+        fresh = build(L, t2)
+        if type(f) is not type(fresh) or t[0] in ('ap', 'bool'):
+            return
+        d = {f: 'old'}
+        hash(f)
+        str(f)
+        f == fresh
+        kids = [c.clone() for c in fresh._subformula]
+        f.__init__(*kids)                  # in-place: same object, new tree
+    except Exception:
+        return
+    LOG.hit('c11.reinit')
+    LOG.sig['reinit'] += 1
+    if tree_of(f) != t2:
+        return
+    ok = False
+    try:
+        ok = (f == fresh) and (fresh == f) and hash(f) == hash(fresh) and \
+            len({f, fresh}) == 1 and {fresh: 1}.get(f) == 1 and \
+            (f == f.clone()) and hash(f) == hash(f.clone())
+    except Exception:
+        ok = False
+    if not ok:
+        LOG.violation('c11.hash', PROP,
+                      {'logic': logic, 'f': t2, 'was': t, 'shown': show(t2)},
+                      {'==': f == fresh, 'hash_equal': hash(f) == hash(fresh)},
+                      'equal and one key',
+                      note='a formula whose operands were replaced in place '
+                           'is equal to a fresh formula of the same tree but '
+                           'does not hash like it')
+
+
 def bool_checks(logic):
     L = lang(logic)
     for b in (True, False):
@@ -315,6 +354,13 @@ def run(ctx):
             judge_clone(logic, copies[a][0], tf)
             if a % 2 == 0:
                 judge_routes(logic, tf)
+            if a % 3 == 0 and tf[0] not in ('ap', 'bool'):
+                # another tree with the same root operator and arity
+                for b in range(a + 1, min(n, a + 40)):
+                    tb = objs[b][1]
+                    if tb[0] == tf[0] and len(tb) == len(tf) and tb != tf:
+                        judge_reinit(logic, tf, tb)
+                        break
             judge_pair(logic, f, tf, copies[a][0], copies[a][1], True)
             judge_pair(logic, f, tf, f, tf, True)          # reflexive
             for b in range(n):
